@@ -190,7 +190,10 @@ def rand_translation(r) -> Tuple[float, float, float]:
 
 
 def make_matrix(r, q, t, src, dst) -> Tuple[HomogeneousMatrix, str]:
-    kind = r.choice(["quat", "tuple", "m3", "m4"])
+    kind = r.choice(["quat", "tuple", "m3", "m4", "m4rot"])
+    if kind == "m4rot":
+        # the orientation as a 4x4 matrix (rotation block, zero translation), next to a separate position
+        return HomogeneousMatrix(np.array(t), G.homogeneous((0.0, 0.0, 0.0), q), src=src, dst=dst), kind
     if kind == "quat":
         return HomogeneousMatrix(np.array(t), Quaternion(*q), src=src, dst=dst), kind
     if kind == "tuple":
@@ -227,7 +230,10 @@ def run(ctx: Ctx) -> None:
                 back = inv.transform(m.transform(p))
                 ctx.count("C18.roundtrips")
                 ctx.check(np.abs(back - p).max() <= ptol(p, t) * 10, "C18/inverse_roundtrip_position", dict(p=p.tolist(), back=np.asarray(back).tolist(), q=q, t=t), "HomogeneousMatrix.inv")
-                pp, qq = m.transform(p, Quaternion(*q2))
+                # the orientation of the pose in any accepted spelling (quaternion, 4 numbers, 3x3 or 4x4 rotation matrix)
+                rot_spelling = r.choice(["quaternion", "tuple", "3x3", "4x4"])
+                rot_in = {"quaternion": Quaternion(*q2), "tuple": tuple(q2), "3x3": G.quat_to_matrix(q2), "4x4": G.homogeneous((0.0, 0.0, 0.0), q2)}[rot_spelling]
+                pp, qq = m.transform(p, rot_in)
                 bp, bq = inv.transform(pp, qq)
                 ctx.check(np.abs(np.asarray(bp) - p).max() <= ptol(p, t) * 10 and G.same_rotation(tuple(bq.elements), q2), "C18/inverse_roundtrip_pose", dict(p=p.tolist(), back=np.asarray(bp).tolist()), "HomogeneousMatrix.inv")
                 # keyword spellings and matrix argument
